@@ -27,7 +27,7 @@ from ...common.utils import (
     text_, bytes_, build_http_request, build_http_response,
 )
 from ...common.constants import (
-    CRLF, COLON, SLASH, HTTP_1_0, HTTP_1_1, WHITESPACE, DEFAULT_HTTP_PORT,
+    CRLF, COLON, COMMA, SLASH, HTTP_1_0, HTTP_1_1, WHITESPACE, DEFAULT_HTTP_PORT,
     DEFAULT_DISABLE_HEADERS, DEFAULT_ENABLE_PROXY_PROTOCOL,
 )
 
@@ -203,10 +203,15 @@ class HttpParser:
     @property
     def is_http_1_1_keep_alive(self) -> bool:
         """Returns true for HTTP/1.1 keep-alive connections."""
+        # NOTE: Connection header carries a list of options,
+        # e.g. ``Connection: keep-alive, TE``
         return self.version == HTTP_1_1 and \
             (
                 not self.has_header(b'Connection') or
-                self.header(b'Connection').lower() == b'keep-alive'
+                b'keep-alive' in [
+                    option.strip().lower()
+                    for option in self.header(b'Connection').split(COMMA)
+                ]
             )
 
     @property
